@@ -145,6 +145,20 @@ func needSep(prev, next string) bool {
 
 var wsChoices = []string{" ", "\t", "\n", "\r\n", "  ", " \t "}
 
+// randWS: one of the fixed choices, or (half of the time) any run of one to four of the four XPath
+// whitespace characters in any order (a look-ahead must skip all of them, wherever they stand in the run)
+func randWS(r *Rng) string {
+	if r.Chance(50) {
+		return pick(r, wsChoices)
+	}
+	n := 1 + r.Intn(4)
+	var b strings.Builder
+	for i := 0; i < n; i++ {
+		b.WriteString(pick(r, []string{" ", "\t", "\n", "\r"}))
+	}
+	return b.String()
+}
+
 // spell joins tokens: mode 0 = minimal (whitespace only where needed), 1 = single spaces everywhere,
 // 2 = random whitespace at random boundaries (always where needed)
 func spell(r *Rng, toks []string, mode int) string {
@@ -156,17 +170,17 @@ func spell(r *Rng, toks []string, mode int) string {
 			case mode == 1:
 				b.WriteString(" ")
 			case mode == 2 && (need || r.Chance(40)):
-				b.WriteString(pick(r, wsChoices))
+				b.WriteString(randWS(r))
 			case need:
 				b.WriteString(" ")
 			}
 		} else if mode == 2 && r.Chance(20) {
-			b.WriteString(pick(r, wsChoices))
+			b.WriteString(randWS(r))
 		}
 		b.WriteString(t)
 	}
 	if mode == 2 && r.Chance(20) {
-		b.WriteString(pick(r, wsChoices))
+		b.WriteString(randWS(r))
 	}
 	return b.String()
 }
